@@ -66,6 +66,7 @@ def BiCGSTAB_reset(Op,rhs,x0,eps=1e-6,nmax=40):
     flag = False if k==nmax else True
     
     relres = r_nn/norm_rhs 
+    _verif.emit('bicgstab', N=int(rhs.shape[0]), nmax=int(nmax), nit=int(nit), relres=float(relres), eps=float(eps))
     
     return x_n,flag,nit,relres
 
